@@ -28,6 +28,7 @@ NA = "ant_protocol::NetworkAddress"
 
 def run(R):
     F = R.F
+    refpoint_rules(R)
     # (1) one metric
     R.who_may_call("C11.metric", [KD], [NAD, "ant_networking::sort_peers_by_key",
                                         "ant_networking::network_discovery::NetworkDiscovery::generate_candidates",
@@ -202,3 +203,118 @@ def run(R):
         if not ok:
             R.viol("C11.sort.closest", "sort-take", "calculate_get_closest_peers(num) is not sort_by_key(target.distance) then take(num)", cg, cg.lines[0])
         R.inst("C11.sort.closest", "K10 polarity", "closest-N = sort_by_key(target.distance(addr)) then take(num_of_peers)", len(srt), ok)
+
+
+# ------------------------------------------------------------------ reference point of closeness decisions
+REF_EXTRA = ["ant_protocol::NetworkAddress::from_peer", "ant_protocol::NetworkAddress::as_kbucket_key", "libp2p_kad::kbucket::key::Key::from",
+             "*as core::convert::From<libp2p_identity::peer_id::PeerId>>::from"]
+SD = "ant_networking::cmd::<impl ant_networking::driver::SwarmDriver>::"
+NRS_ = "ant_networking::record_store::NodeRecordStore"
+RF_ = "ant_networking::replication_fetcher::ReplicationFetcher::"
+# function -> (kind, what): the address every distance in that function (and its closures) is measured from
+REFPOINTS = {
+    SD + "get_replicate_candidates": ("param", 1, "target"),
+    "ant_networking::cmd::get_peers_in_range": ("param", 1, "address"),
+    NRS_ + "::with_config": ("param", 0, "local_id"),
+    NRS_ + "::calculate_farthest": ("field", "local_address", "self.local_address"),
+    NRS_ + "::prune_records_if_needed": ("field", "local_address", "self.local_address"),
+    NRS_ + "::mark_as_stored": ("field", "local_address", "self.local_address"),
+    "<%s as libp2p_kad::record::store::RecordStore>::remove" % NRS_: ("field", "local_address", "self.local_address"),
+    RF_ + "add_keys": ("field", "self_peer_id", "self.self_peer_id"),
+    RF_ + "set_farthest_on_full": ("field", "self_peer_id", "self.self_peer_id"),
+    RF_ + "next_keys_to_fetch": ("field", "self_peer_id", "self.self_peer_id"),
+    "ant_node::node::Node::calculate_get_closest_peers": ("param", 1, "target"),
+}
+# calls that take the reference point as an argument: callee -> argument index
+REF_ARG = {NAD: 0, "ant_protocol::NetworkAddress::as_kbucket_key": 0, "ant_networking::cmd::get_peers_in_range": 1}
+
+
+def ref_locals(F, body, spec, _depth=0):
+    """locals of `body` that hold (a copy of / reference to / address built from) the reference point"""
+    prep(body)
+    ta = Taint(body, extra_transparent=REF_EXTRA)
+    if body.kind == "closure" and body.parent and _depth < 4:
+        parent = F.body(body.parent)
+        if parent is None:
+            return set()
+        ps = ref_locals(F, parent, spec, _depth + 1)
+        seeds = set()
+        for blk in parent.blocks:
+            for st in blk["stmts"]:
+                rv = st["rv"]
+                if rv["k"] == "agg" and rv.get("ak") == "closure" and rv.get("adt") == body.path:
+                    for k, o in enumerate(rv["ops"]):
+                        if op_local(o) in ps:
+                            tag = ".upv%d" % k
+                            for b2 in body.blocks:
+                                for s2 in b2["stmts"]:
+                                    r2 = s2["rv"]
+                                    pl = r2["a"][1] if r2["k"] == "use" and r2["a"][0] in ("cp", "mv") else r2.get("p") if r2["k"] in ("ref",) else None
+                                    if pl and tag in pl:
+                                        seeds.add(s2["d"][0])
+                                t2 = b2["term"]
+                                if t2["k"] == "call":
+                                    for a in t2["args"]:
+                                        if a[0] in ("cp", "mv") and tag in a[1]:
+                                            seeds.add(("arg", b2["id"], t2["args"].index(a)))
+        direct = {x for x in seeds if isinstance(x, tuple)}
+        own = {d for d, r, p in field_reads(body, spec[1])} if spec[0] == "field" else set()   # `self` captured, field read inside the closure
+        out = ta.closure({x for x in seeds if not isinstance(x, tuple)} | own)
+        return out | direct
+    kind = spec[0]
+    if kind == "param":
+        return ta.closure(PL(body, spec[1]))
+    return ta.closure({d for d, r, p in field_reads(body, spec[1])})
+
+
+def refpoint_rules(R):
+    F = R.F
+    n_sites, n_fns = 0, 0
+    ok_all = True
+    for fn, spec in REFPOINTS.items():
+        root = R.body("C11.refpoint", fn)
+        if root is None:
+            ok_all = False
+            continue
+        n_fns += 1
+        found = 0
+        for b in F.item(fn):
+            prep(b)
+            refs = ref_locals(F, b, spec)
+            for blk in b.blocks:
+                t = blk["term"]
+                if t["k"] != "call" or blk["cleanup"] or t.get("mac") in LOG_MACROS:
+                    continue
+                nc = t["ncallee"] or ""
+                if nc not in REF_ARG:
+                    continue
+                idx = REF_ARG[nc]
+                def is_ref(i):
+                    a = t["args"][i]
+                    return op_local(a) in refs or ("arg", blk["id"], i) in refs
+                if nc == NAD:
+                    found += 1
+                    # symmetric metric: one of the two operands must be the reference point
+                    if not (is_ref(0) or is_ref(1)):
+                        ok_all = False
+                        R.viol("C11.refpoint", "wrong-reference:%s!distance" % fn.split("::")[-1],
+                               "a distance in %s is not measured from %s (the point its closeness decisions are relative to)" % (b.path, spec[2]), b, t["l"])
+                elif nc == "ant_protocol::NetworkAddress::as_kbucket_key":
+                    # only judged where the key feeds a closest-peers query of this function
+                    if b.path == fn and fn.endswith("get_replicate_candidates"):
+                        found += 1
+                        if not is_ref(0):
+                            ok_all = False
+                            R.viol("C11.refpoint", "wrong-reference:%s!as_kbucket_key" % fn.split("::")[-1], "the closest-peers query of %s is not keyed by %s" % (fn, spec[2]), b, t["l"])
+                else:
+                    found += 1
+                    if not is_ref(idx):
+                        ok_all = False
+                        R.viol("C11.refpoint", "wrong-reference:%s!%s" % (fn.split("::")[-1], nc.split("::")[-1]),
+                               "%s is handed a reference address other than %s in %s" % (nc.split("::")[-1], spec[2], b.path), b, t["l"])
+        if found == 0:
+            ok_all = False
+            R.viol("C11.refpoint", "anchor-missing:%s" % fn.split("::")[-1], "no distance computation found in %s (rule table out of date)" % fn, root, root.lines[0])
+        n_sites += found
+    R.inst("C11.refpoint", "K6 flows-to", "every distance in a closeness-deciding function is measured from that function's reference point (target / self)", n_sites, ok_all and n_sites >= 17,
+           {"functions": n_fns, "sites": n_sites})
